@@ -80,11 +80,14 @@ impl<K, V> HashMap<K, V> {
     }
 }
 
-impl<K: PartialEq, V> HashMap<K, V> {
-    pub fn get(&self, k: &K) -> Option<&V> {
+impl<K, V> HashMap<K, V> {
+    pub fn get<Q: ?Sized + PartialEq>(&self, k: &Q) -> Option<&V>
+    where
+        K: std::borrow::Borrow<Q>,
+    {
         for_each_slot!(i, {
             if let Some((sk, sv)) = &self.slots[i] {
-                if sk == k {
+                if sk.borrow() == k {
                     return Some(sv);
                 }
             }
@@ -92,9 +95,15 @@ impl<K: PartialEq, V> HashMap<K, V> {
         None
     }
 
-    pub fn contains_key(&self, k: &K) -> bool {
+    pub fn contains_key<Q: ?Sized + PartialEq>(&self, k: &Q) -> bool
+    where
+        K: std::borrow::Borrow<Q>,
+    {
         self.get(k).is_some()
     }
+}
+
+impl<K: PartialEq, V> HashMap<K, V> {
 
     pub fn insert(&mut self, k: K, v: V) -> Option<V> {
         let mut at: Option<usize> = None;
@@ -201,17 +210,23 @@ impl<T> HashSet<T> {
     }
 }
 
-impl<T: PartialEq> HashSet<T> {
-    pub fn contains(&self, t: &T) -> bool {
+impl<T> HashSet<T> {
+    pub fn contains<Q: ?Sized + PartialEq>(&self, t: &Q) -> bool
+    where
+        T: std::borrow::Borrow<Q>,
+    {
         for_each_slot!(i, {
             if let Some(s) = &self.slots[i] {
-                if s == t {
+                if s.borrow() == t {
                     return true;
                 }
             }
         });
         false
     }
+}
+
+impl<T: PartialEq> HashSet<T> {
 
     pub fn insert(&mut self, t: T) -> bool {
         if self.contains(&t) {
